@@ -100,6 +100,19 @@ Proof.
   repeat split; [exact Wr|exact Rd|]. rewrite (write_idem_stable _ _ _ _ W S). exact Wr.
 Qed.
 
+(** ** writing has no effect on the object
+    In the model [write] is a function of the flag and the object and returns lines only: the
+    object after a write is the object (the correspondence compares the implementation's object
+    after two writes with the object before them on every generated set).  Hence what any later
+    write produces does not depend on the writes before it, in whichever order of [reset]: *)
+Definition write_all (flags : list bool) (i : incon) : res (list (list str)) := mapM (fun r => write r i) flags.
+Theorem write_history_irrelevant flags r i lss : write_all flags i = Ok lss ->
+  (do _ <- write_all flags i; write r i) = write r i.
+Proof. intro H. rewrite H. reflexivity. Qed.
+(** in particular a write that keeps the timing, after one that reset it (and the other way round) *)
+Corollary write_after_write r1 r2 i ls1 : write r1 i = Ok ls1 -> (do _ <- write r1 i; write r2 i) = write r2 i.
+Proof. intro H. rewrite H. reflexivity. Qed.
+
 (** ** what the object read back keeps *)
 Lemma cn_is_some f o : is_some (cn f o) = is_some o.
 Proof. destruct o as [x|]; [destruct (cn_some f x) as [y ->]; reflexivity|reflexivity]. Qed.
